@@ -486,6 +486,54 @@ def regress_execs():
     return out
 
 
+def reader_execs(rng, thorough):
+    """aws_byte_buf_init_from_file[_with_size_hint] as a byte-buffer initialiser (also run by C01): random trees with the
+    'read' mix, every kind of path that must be refused after the file was opened or before, and files above the 128 MiB
+    mark with hints below, at and above their size"""
+    execs = [tree_exec(rng, rng.randint(15, 50), "read") for _ in range(60 if not thorough else 1500)]
+    for _ in range(6 if not thorough else 60):
+        a, b = rng.sample(NAMES, 2)
+        ex = ["RESET", "MKDIRRAW %d" % a, "MKFILE %d,%d %d %d" % (a, b, rng.randrange(2, 1000), rng.choice(SIZES)), "MKDIRRAW %d,%d" % (a, a)]
+        for _ in range(12):
+            path = rng.choice(["%d" % a, "%d,%d" % (a, a), "%d,%d" % (a, b), "%d,%d,%d" % (a, b, a), "%d" % b, "-"])
+            hinted = rng.random() < 0.6
+            ex.append("BUFFILE %s %s %d %d" % (rng.choice("rad"), path, 1 if hinted else 0, rng.choice([0, 1, 31, 4096, 4097, 1 << 20]) if hinted else 0))
+        execs.append(ex)
+    m = 1 << 20
+    big = []
+    for size in [129 * m + 10000] + ([128 * m + 1, 257 * m + 3] if thorough else []):
+        f = rng.choice(NAMES)
+        ex = ["RESET", "MKFILE %d %d %d" % (f, rng.randrange(2, 1000), size)]
+        for hint in [size - 10000, 128 * m + 1, size] + ([size + 1, 128 * m, 4096] if thorough else []):
+            if hint > 0:
+                ex.append("BUFFILE a %d 1 %d" % (f, hint))
+        ex.append("BUFFILE r %d 0 0" % f)
+        big.append(ex)
+    return execs, big
+
+
+def reader_family(ctx, thorough, label="filereader"):
+    exe = prepare(ctx)
+    rng = random.Random(ctx.seed * 17 + 3)
+    execs, big = reader_execs(rng, thorough)
+    fsdir = os.path.join(ctx.outdir, "fs_" + label)
+    shutil.rmtree(fsdir, ignore_errors=True)
+    os.makedirs(fsdir)
+    for ex in execs + big:
+        ctx.distinct.add(hash("reader|" + "\n".join(ex)))
+    try:
+        n = pipeline.drive_and_validate(ctx, exe, execs, SPEC_DIR, "OsFacadeTrace", "Trace.cfg", label=label, harness_args=[fsdir],
+                                        tlc_timeout=1500, harness_timeout=900)
+        # files above 128 MiB: slow by design (the adapter re-reads the tree after every call), one process each
+        n += pipeline.drive_and_validate(ctx, exe, big, SPEC_DIR, "OsFacadeTrace", "Trace.cfg", label=label + "_big", nbatch=len(big),
+                                         harness_args=[fsdir], tlc_timeout=1500, harness_timeout=1500, env={"VH_WATCHDOG": "1400"},
+                                         stale_errors=0)
+    finally:
+        shutil.rmtree(fsdir, ignore_errors=True)
+    ctx.extra["file_reader_executions"] = len(execs) + len(big)
+    return n
+
+
 def run(ctx):
     thorough = ctx.tier == "thorough"
     exe = prepare(ctx)
@@ -535,6 +583,7 @@ def run(ctx):
         execs.append(tree_exec(rng, rng.randint(15, 60), "iter"))
     for _ in range(n_env):
         execs.append(env_exec(rng, rng.randint(10, 70)))
+    execs += reader_execs(rng, thorough)[0][-6:]
     ctx.extra["random_scripts"] = {"tree": n_tree, "read": n_read, "iter": n_iter, "env": n_env}
     for ex in execs:
         ctx.evaluations += 1
